@@ -24,26 +24,23 @@ Definition cstate (P : params) (nd : bool) (b : N) (d d1 : disk) (i0' : N) (A' D
   /\ d_meta d1 = d_meta d
   /\ (Forall all_live (d_files d) -> Forall all_live (d_files d1)).
 
-Lemma conflict_step_state : forall v P nd, wf_params P = true -> clears v P nd -> forall d i0 Ac b,
+Lemma conflict_step_state : forall v P nd, wf_params P = true -> clears v P nd -> clears_end v P -> forall d i0 Ac b,
   dinv P i0 d Ac -> 1 <= b ->
   (log_of d = [] \/ (first_of (log_of d) <= b /\ b <= last_of (log_of d) + 1)) ->
   exists i0' A' D', cstate P nd b d (conflict_step v P b d) i0' A' D'.
 Proof.
-  intros v P nd HP Hclr d i0 Ac b I Hb Hrange.
+  intros v P nd HP Hclr Hend d i0 Ac b I Hb Hrange.
   destruct (wf_params_facts P HP) as (Hmax & Hoffp & Hsz). unfold entry_sz in Hoffp.
-  pose proof I as (H1 & Hch & V & C & Hn & He).
+  pose proof I as (H1 & Hch & V & C & Hn & HKl).
   unfold conflict_step, cstate, below_idx.
-  destruct (nil_or_not Ac) as [EA|EA].
+  destruct (inv_cases P d i0 Ac I) as [(EA & Ef & Hl)|Hne].
   - (* empty log *)
-    assert (Hl : log_of d = []) by (rewrite (inv_log P d i0 Ac I), (He EA), EA; reflexivity).
-    rewrite (slot_ge_empty P d i0 Ac I EA b), Hl.
-    subst Ac. pose proof (dinv_empty_any P i0 d I b Hb) as (_ & Hch' & V' & _ & Hn' & He').
-    exists b, [], []. rewrite (He eq_refl) in *. rewrite flen_nil. cbn [length N.of_nat map concat app firstn].
+    rewrite (slot_ge_empty P d i0 Ac I EA Ef b), Hl.
+    subst Ac. pose proof (dinv_empty_any P i0 d I Ef b Hb) as (_ & Hch' & V' & _ & Hn' & _).
+    exists b, [], []. rewrite Ef in *. rewrite flen_nil. cbn [length N.of_nat map concat app firstn].
     split; [exact Hb|]. split; [exact Logic.I|]. split; [exact V'|]. split; [exact Logic.I|]. split; [exact Hn'|].
     split; [lia|]. split; [reflexivity|]. split; [lia|]. split; [now rewrite firstn_nil|]. split; [reflexivity|auto].
-  - assert (Hne : log_of d <> []).
-    { rewrite (inv_log P d i0 Ac I). destruct Ac; [congruence|]. intro X. apply app_eq_nil in X as [_ X]. discriminate. }
-    assert (Hf : first_of (log_of d) = i0) by (apply (inv_first P d i0 Ac I Hne)).
+  - assert (Hf : first_of (log_of d) = i0) by (apply (inv_first P d i0 Ac I Hne)).
     assert (Hlast : last_of (log_of d) + 1 = i0 + flen (d_files d) + N.of_nat (length Ac)).
     { rewrite (consec_last _ _ (inv_consec P d i0 Ac I) Hne). pose proof (inv_len P d i0 Ac I).
       destruct (log_of d); [congruence|]. cbn [length] in *. lia. }
@@ -96,7 +93,32 @@ Proof.
         replace (N.to_nat (b - i0)) with (length (concat (map file_entries (d_files d))) + lo)%nat
           by (rewrite Hlp; unfold lo, c0; lia).
         rewrite firstn_app_2, firstn_map. reflexivity.
-      * (* pure append *)
+      * destruct (nil_or_not Ac) as [EA|EA].
+        { (* empty current file beside older files: the newest rotated file is found behind its last entry and becomes
+             the current file again; nothing has to be cleared *)
+          assert (Ef : d_files d <> []).
+          { intro Ef. apply Hne. rewrite (inv_log P d i0 Ac I), Ef, EA. reflexivity. }
+          destruct (exists_last Ef) as (pre & f & Hfs).
+          destruct (slot_ge_files_beyond P d i0 Ac I EA pre f b Hfs ltac:(fold c0; lia)) as (A & D & Vf & HAf & Cf & ->).
+          assert (ED : D = []).
+          { apply (all_live_no_dead P f A D Vf). pose proof (HKl EA) as K. rewrite Hfs in K. apply Forall_app in K as [_ K]. now inversion K. }
+          subst D.
+          rewrite Hfs, firstn_app, firstn_all, Nat.sub_diag. cbn [firstn]. rewrite app_nil_r.
+          rewrite app_nth2 by lia. rewrite Nat.sub_diag. cbn [nth].
+          pose proof Hch as Hch2. rewrite Hfs in Hch2. apply chain_app in Hch2 as [Hpre _].
+          pose proof (Hend (data_off P) (max_entries P) f A Vf HAf (fv_max _ _ _ _ Vf)) as Vz.
+          assert (Hc0 : c0 = i0 + flen pre + N.of_nat (length A)).
+          { unfold c0. rewrite Hfs, flen_app, (flen_cons P f A [] [] Vf), flen_nil. lia. }
+          assert (Hb0 : b = c0) by (clear -E1 E2 Hhi EA; subst Ac; cbn [length N.of_nat] in *; lia).
+          exists i0, A, []. cbn [d_files d_cur d_next d_meta].
+          split; [exact H1|]. split; [exact Hpre|]. split; [exact Vz|]. split; [exact Cf|].
+          split; [reflexivity|]. split; [cbn; lia|]. split; [reflexivity|]. split; [lia|]. split; [|split; [reflexivity|]].
+          - rewrite firstn_all2.
+            + rewrite (inv_log P d i0 Ac I), Hfs, EA, map_app, concat_app. cbn [map concat].
+              now rewrite (fv_entries P f A [] Vf), !app_nil_r.
+            + pose proof (inv_len P d i0 Ac I) as L. rewrite EA in L. cbn [length] in L. unfold c0 in *. lia.
+          - intro Hal. try rewrite Hfs in Hal. apply Forall_app in Hal. tauto. }
+        (* pure append *)
         rewrite (slot_ge_cur_beyond P d i0 Ac I b EA) by (fold c0; lia).
         rewrite Hn, N.ltb_irrefl.
         exists i0, Ac, []. cbn [d_files d_cur d_next d_meta]. fold c0.
@@ -140,7 +162,7 @@ Definition failed_log (ft : fault) (e0 : entry) (r : list entry) (h : option har
   let es := e0 :: r in
   let b := e_index e0 in
   match ft with
-  | FClear =>
+  | FClear _ =>
       (* a prefix of the old log that still holds the conflicting index: nothing of the batch, nothing discarded
          below or at b; meta untouched *)
       (exists n, a_ents new = firstn n (a_ents old) /\ (N.to_nat (b - first_of (a_ents old)) < n)%nat)
@@ -156,26 +178,69 @@ Lemma save_whole : forall v P es h s d,
   store_meta h s (add_entries v P es d) = fst (step_disk v P (Save es h s) d).
 Proof. reflexivity. Qed.
 
-Lemma clear_failed_state : forall P, wf_params P = true -> forall d i0 Ac b d1,
+Lemma clear_failed_state : forall P, wf_params P = true -> forall d i0 Ac b c d1,
   dinvz P i0 d Ac -> 1 <= b ->
   (log_of d = [] \/ (first_of (log_of d) <= b /\ b <= last_of (log_of d) + 1)) ->
-  clear_failed P b d = Some d1 ->
+  clear_failed P b c d = Some d1 ->
   (exists Ac1, dinvz P i0 d1 Ac1) /\ d_meta d1 = d_meta d
   /\ exists n, log_of d1 = firstn n (log_of d) /\ (N.to_nat (b - first_of (log_of d)) < n)%nat.
 Proof.
-  intros P HP d i0 Ac b d1 [I Hal] Hb Hrange Hcf.
-  pose proof I as (H1 & Hch & V & C & Hn & He).
+  intros P HP d i0 Ac b c d1 [I Hal] Hb Hrange Hcf.
+  pose proof I as (H1 & Hch & V & C & Hn & HKl).
   unfold clear_failed in Hcf.
-  destruct (nil_or_not Ac) as [EA|EA].
-  - rewrite (slot_ge_empty P d i0 Ac I EA b) in Hcf. discriminate.
-  - assert (Hne : log_of d <> []).
-    { rewrite (inv_log P d i0 Ac I). destruct Ac; [congruence|]. intro X. apply app_eq_nil in X as [_ X]. discriminate. }
-    assert (Hf : first_of (log_of d) = i0) by (apply (inv_first P d i0 Ac I Hne)).
+  destruct (inv_cases P d i0 Ac I) as [(EA & Ef & Hl)|Hne].
+  - rewrite (slot_ge_empty P d i0 Ac I EA Ef b) in Hcf. discriminate.
+  - assert (Hf : first_of (log_of d) = i0) by (apply (inv_first P d i0 Ac I Hne)).
     assert (Hlast : last_of (log_of d) + 1 = i0 + flen (d_files d) + N.of_nat (length Ac)).
     { rewrite (consec_last _ _ (inv_consec P d i0 Ac I) Hne). pose proof (inv_len P d i0 Ac I).
       destruct (log_of d); [congruence|]. cbn [length] in *. lia. }
     destruct Hrange as [E|[Hlo Hhi]]; [congruence|]. rewrite Hf in *. rewrite Hlast in Hhi.
     set (c0 := i0 + flen (d_files d)) in *.
+    (* the shape shared by the two cases in which a rotated file is taken back as the current one *)
+    assert (Hold : forall pre f post A lo, d_files d = pre ++ f :: post -> fview P f A [] -> A <> [] ->
+               consec (i0 + flen pre) (map row_entry A) -> chain P i0 pre ->
+               lo < max_entries P -> lo + c < max_entries P ->
+               ((N.to_nat lo < length A)%nat \/ (N.to_nat lo = length A /\ post = [] /\ Ac = [])) ->
+               b = i0 + flen pre + lo ->
+               let f' := clear_part (max_entries P) c f in
+               (exists Ac1, dinvz P i0 (mkdisk pre f' (first_empty_slot P f') (d_meta d)) Ac1)
+               /\ exists n, log_of (mkdisk pre f' (first_empty_slot P f') (d_meta d)) = firstn n (log_of d)
+                            /\ (N.to_nat (b - i0) < n)%nat).
+    { intros pre f post A lo Hfs Vf HA Cf Hpre Hl1 Hl2 Hl3 Hbb f'.
+      pose proof (fv_max _ _ _ _ Vf) as Hfm. pose proof (fv_n _ _ _ _ Vf) as Hfn. rewrite app_nil_r in Hfn.
+      pose proof (clear_part_view_all P (max_entries P) c f A Vf Hfm) as Vf'. fold f' in Vf'.
+      set (m := N.to_nat (max_entries P - c)) in *.
+      assert (Hm : (N.to_nat lo < m)%nat) by (unfold m; lia).
+      set (A1 := firstn m A) in *.
+      assert (HA1 : A1 <> []).
+      { unfold A1. destruct A as [|a t]; [congruence|]. destruct m; [lia|discriminate]. }
+      assert (Hlen1 : length A1 = Nat.min m (length A)) by (unfold A1; apply firstn_length).
+      rewrite (first_empty_view P f' A1 [] (i0 + flen pre) Vf' ltac:(lia)).
+      split.
+      - exists A1. split.
+        + unfold dinv. cbn [d_files d_cur d_next]. split; [exact H1|]. split; [exact Hpre|]. split; [exact Vf'|].
+          split; [unfold A1; now apply consec_firstn_rows|]. split; [reflexivity|]. congruence.
+        + unfold alivef in *. cbn [d_files]. rewrite Hfs in Hal. apply Forall_app in Hal. tauto.
+      - assert (Hlog1 : log_of (mkdisk pre f' (N.of_nat (length A1)) (d_meta d))
+                        = firstn (length (concat (map file_entries pre)) + length A1) (log_of d)).
+        { rewrite log_of_eq. cbn [d_files d_cur]. rewrite (fv_entries P f' A1 [] Vf').
+          rewrite (inv_log P d i0 Ac I), Hfs, map_app, concat_app. cbn [map concat].
+          rewrite (fv_entries P f A [] Vf), <- !app_assoc.
+          rewrite firstn_app_2, firstn_app, map_length.
+          replace (length A1 - length A)%nat with 0%nat by lia. cbn [firstn]. rewrite app_nil_r.
+          rewrite firstn_map. do 2 f_equal. rewrite Hlen1. unfold A1.
+          destruct (Nat.le_ge_cases m (length A)); [rewrite Nat.min_l by lia; reflexivity|].
+          rewrite Nat.min_r by lia. rewrite !firstn_all2 by lia. reflexivity. }
+        destruct Hl3 as [Hl3|(Hl3 & -> & ->)].
+        + exists (length (concat (map file_entries pre)) + length A1)%nat. split; [exact Hlog1|].
+          unfold flen in Hbb. lia.
+        + (* the batch starts right behind the file: the whole log is kept *)
+          exists (S (length (log_of d))). rewrite Hlog1. split.
+          * rewrite (firstn_all2 (n := S _)) by lia. apply firstn_all2.
+            rewrite (inv_log P d i0 [] I), Hfs, map_app, concat_app, !app_length. cbn [map concat length].
+            rewrite app_nil_r, (fv_entries P f A [] Vf), map_length. lia.
+          * rewrite (inv_log P d i0 [] I), Hfs, map_app, concat_app, !app_length. cbn [map concat length].
+            rewrite app_nil_r, (fv_entries P f A [] Vf), map_length. unfold flen in Hbb. lia. }
     destruct (b <? c0) eqn:E1.
     + destruct (chain_locate P (d_files d) i0 b Hch Hlo ltac:(unfold c0 in E1; lia))
         as (pre & f & post & A0 & D0 & Hfs & Vf0 & Hfi1 & Hfi2).
@@ -189,32 +254,54 @@ Proof.
       rewrite (slot_ge_old P d i0 Ac I pre f post A D b Hfs Vf Hfi1 ltac:(fold fi; lia)) in Hcf. fold fi in Hcf.
       rewrite Hfs, firstn_app, firstn_all, Nat.sub_diag in Hcf. cbn [firstn] in Hcf. rewrite app_nil_r in Hcf.
       rewrite app_nth2 in Hcf by lia. rewrite Nat.sub_diag in Hcf. cbn [nth] in Hcf.
-      pose proof (fv_max _ _ _ _ Vf) as Hfm. pose proof (fv_n _ _ _ _ Vf) as Hfn. rewrite app_length in Hfn.
-      destruct (b - fi <? max_entries P) eqn:E3; [|lia]. injection Hcf as <-.
-      (* the reused file has no dead rows *)
+      destruct ((b - fi <? max_entries P) && (b - fi + c <? max_entries P)) eqn:E3; [|discriminate]. injection Hcf as <-.
+      apply andb_true_iff in E3 as [E3 E4].
       assert (Hlf : all_live f).
       { unfold alivef in Hal. rewrite Hfs in Hal. apply Forall_app in Hal as [_ Hal]. now inversion Hal. }
       assert (ED : D = []) by (apply (all_live_no_dead P f A D Vf Hlf)). subst D.
-      rewrite (first_empty_view P f A [] fi Vf ltac:(unfold fi; lia)).
-      split; [|split; [reflexivity|]].
-      * exists A. split.
-        -- unfold dinv. cbn [d_files d_cur d_next]. fold fi. repeat (split; [assumption|]). split; [reflexivity|]. congruence.
-        -- unfold alivef in *. cbn [d_files]. rewrite Hfs in Hal. apply Forall_app in Hal. tauto.
-      * exists (length (concat (map file_entries pre)) + length A)%nat. split.
-        -- rewrite log_of_eq. cbn [d_files d_cur]. rewrite (fv_entries P f A [] Vf).
-           rewrite (inv_log P d i0 Ac I), Hfs, map_app, concat_app. cbn [map concat].
-           rewrite (fv_entries P f A [] Vf), <- !app_assoc.
-           rewrite firstn_app_2, firstn_app, map_length, Nat.sub_diag. cbn [firstn]. rewrite app_nil_r.
-           rewrite firstn_all2 by (rewrite map_length; lia). reflexivity.
-        -- unfold flen in fi. unfold fi in *. lia.
+      destruct (Hold pre f post A (b - fi) Hfs Vf HA Cf Hpre ltac:(lia) ltac:(lia) ltac:(left; lia) ltac:(unfold fi; lia)) as [X1 X2].
+      split; [exact X1|]. split; [reflexivity|exact X2].
     + destruct (b <? c0 + N.of_nat (length Ac)) eqn:E2.
       * rewrite (slot_ge_cur_inside P d i0 Ac I b) in Hcf by (fold c0; lia). fold c0 in Hcf.
-        rewrite Hn in Hcf. destruct (b - c0 <? N.of_nat (length Ac)) eqn:E3; [|lia]. injection Hcf as <-.
-        split; [exists Ac; split; assumption|]. split; [reflexivity|].
-        exists (length (log_of d)). split; [now rewrite firstn_all|].
-        pose proof (inv_len P d i0 Ac I). unfold c0 in *. lia.
-      * rewrite (slot_ge_cur_beyond P d i0 Ac I b EA) in Hcf by (fold c0; lia).
-        rewrite Hn, N.ltb_irrefl in Hcf. discriminate.
+        rewrite Hn in Hcf.
+        destruct ((b - c0 <? N.of_nat (length Ac)) && (b - c0 + c <? N.of_nat (length Ac))) eqn:E3; [|discriminate]. injection Hcf as <-.
+        apply andb_true_iff in E3 as [E3 E4].
+        pose proof (fv_n _ _ _ _ V) as Hfn. rewrite app_nil_r in Hfn.
+        pose proof (clear_part_view_all P (N.of_nat (length Ac)) c (d_cur d) Ac V ltac:(lia)) as V'.
+        set (m := N.to_nat (N.of_nat (length Ac) - c)) in *.
+        assert (Hm : (N.to_nat (b - c0) < m)%nat /\ (m <= length Ac)%nat) by (unfold m; lia).
+        assert (Hlen1 : length (firstn m Ac) = m) by (apply firstn_length_le; lia).
+        split; [|split; [reflexivity|]].
+        -- exists (firstn m Ac). split; [|exact Hal].
+           unfold dinv. cbn [d_files d_cur d_next]. split; [exact H1|]. split; [exact Hch|]. split; [exact V'|].
+           split; [now apply consec_firstn_rows|]. split; [rewrite Hlen1; unfold m; lia|].
+           intro E. apply (f_equal (@length _)) in E. rewrite Hlen1 in E. cbn in E. lia.
+        -- exists (length (concat (map file_entries (d_files d))) + m)%nat. split.
+           ++ rewrite log_of_eq. cbn [d_files d_cur]. rewrite (fv_entries P _ (firstn m Ac) [] V').
+              rewrite (inv_log P d i0 Ac I), firstn_app_2, firstn_map. reflexivity.
+           ++ unfold c0, flen in *. lia.
+      * destruct (nil_or_not Ac) as [EA|EA].
+        { (* empty current file beside older files, the batch starts right behind them *)
+          assert (Ef : d_files d <> []).
+          { intro Ef. apply Hne. rewrite (inv_log P d i0 Ac I), Ef, EA. reflexivity. }
+          destruct (exists_last Ef) as (pre & f & Hfs).
+          destruct (slot_ge_files_beyond P d i0 Ac I EA pre f b Hfs ltac:(fold c0; lia)) as (A & D & Vf & HAf & Cf & Hsg).
+          rewrite Hsg in Hcf.
+          assert (ED : D = []).
+          { apply (all_live_no_dead P f A D Vf). pose proof (HKl EA) as K. rewrite Hfs in K. apply Forall_app in K as [_ K]. now inversion K. }
+          subst D.
+          rewrite Hfs, firstn_app, firstn_all, Nat.sub_diag in Hcf. cbn [firstn] in Hcf. rewrite app_nil_r in Hcf.
+          rewrite app_nth2 in Hcf by lia. rewrite Nat.sub_diag in Hcf. cbn [nth] in Hcf.
+          destruct ((N.of_nat (length A) <? max_entries P) && (N.of_nat (length A) + c <? max_entries P)) eqn:E3; [|discriminate].
+          injection Hcf as <-. apply andb_true_iff in E3 as [E3 E4].
+          pose proof Hch as Hch2. rewrite Hfs in Hch2. apply chain_app in Hch2 as [Hpre _].
+          assert (Hc0 : c0 = i0 + flen pre + N.of_nat (length A)).
+          { unfold c0. rewrite Hfs, flen_app, (flen_cons P f A [] [] Vf), flen_nil. lia. }
+          assert (Hb0 : b = c0) by (clear -E1 E2 Hhi EA; subst Ac; cbn [length N.of_nat] in *; lia).
+          destruct (Hold pre f [] A (N.of_nat (length A)) Hfs Vf HAf Cf Hpre ltac:(lia) ltac:(lia) ltac:(right; split; [lia|split; [reflexivity|exact EA]]) ltac:(lia)) as [X1 X2].
+          split; [exact X1|]. split; [reflexivity|exact X2]. }
+        rewrite (slot_ge_cur_beyond P d i0 Ac I b EA) in Hcf by (fold c0; lia).
+        rewrite Hn, N.ltb_irrefl in Hcf. cbn [andb] in Hcf. discriminate.
 Qed.
 
 Theorem failed_save_log : forall P, wf_params P = true -> forall d i0 Ac e0 r h s ft,
@@ -226,11 +313,11 @@ Theorem failed_save_log : forall P, wf_params P = true -> forall d i0 Ac e0 r h 
 Proof.
   intros P HP d i0 Ac e0 r h s ft Iz (Ces & Hb & Hfit & Hrange) es res. pose proof Iz as [I Hal].
   subst res es. unfold save_fail. cbv zeta.
-  destruct ft as [|j rot| |].
+  destruct ft as [c|j rot| |].
   - (* FClear *)
-    destruct (clear_failed P (e_index e0) d) as [d1|] eqn:Ecf; cbn [fst snd].
+    destruct (clear_failed P (e_index e0) c d) as [d1|] eqn:Ecf; cbn [fst snd].
     + split; [discriminate|]. intros _.
-      destruct (clear_failed_state P HP d i0 Ac (e_index e0) d1 Iz Hb Hrange Ecf) as (_ & M & n & L & Hn).
+      destruct (clear_failed_state P HP d i0 Ac (e_index e0) c d1 Iz Hb Hrange Ecf) as (_ & M & n & L & Hn).
       unfold failed_log. rewrite !abs_log. cbn [a_ents a_meta]. split; [exists n; split; assumption|exact M].
     + split; [intros _; apply save_whole|discriminate].
   - (* FEntry *)
@@ -240,7 +327,7 @@ Proof.
     assert (H : log_of d1 = below_idx (e_index e0) (log_of d) ++ firstn j (e0 :: r) /\ d_meta d1 = d_meta d).
     { destruct j as [|j].
       - (* nothing of the batch is visible: the truncation prefix *)
-        destruct (conflict_step_state VZeroSlots P true HP (clears_zeroslots P) d i0 Ac (e_index e0) I Hb Hrange)
+        destruct (conflict_step_state VZeroSlots P true HP (clears_zeroslots P) (clears_end_zeroslots P) d i0 Ac (e_index e0) I Hb Hrange)
           as (i0' & A' & D' & _ & _ & V' & _ & _ & _ & _ & _ & L' & M' & _).
         unfold d1. cbn [firstn]. destruct (after_conflict_nil P (conflict_step VZeroSlots P (e_index e0) d)) as [L1 M1].
         rewrite L1, M1, app_nil_r. split; [|exact M'].
@@ -248,7 +335,7 @@ Proof.
       - (* = a Save of the first j+1 entries *)
         cbn [firstn] in *.
         assert (Eadd : d1 = add_entries VZeroSlots P (e0 :: firstn j r) d) by reflexivity.
-        destruct (add_entries_inv VZeroSlots P true HP (clears_zeroslots P) d i0 Ac e0 (firstn j r) I) as (a & b & _ & X2 & X3 & _).
+        destruct (add_entries_inv VZeroSlots P true HP (clears_zeroslots P) d i0 Ac e0 (firstn j r) I (or_introl (clears_end_zeroslots P))) as (a & b & _ & X2 & X3 & _ & _).
         + change (e0 :: firstn j r) with (firstn (S j) (e0 :: r)). now apply consec_firstn_es.
         + exact Hb.
         + change (e0 :: firstn j r) with (firstn (S j) (e0 :: r)). now apply Forall_firstn_fits.
@@ -260,13 +347,13 @@ Proof.
     destruct h as [x|]; [destruct (hs_is_empty x) eqn:Eh|]; cbn [fst snd];
       try (split; [intros _; apply save_whole|discriminate]).
     split; [discriminate|]. intros _. unfold failed_log. rewrite !abs_log. cbn [a_ents a_meta].
-    destruct (add_entries_inv VZeroSlots P true HP (clears_zeroslots P) d i0 Ac e0 r I Ces Hb Hfit Hrange) as (a & b & _ & X2 & X3 & _).
+    destruct (add_entries_inv VZeroSlots P true HP (clears_zeroslots P) d i0 Ac e0 r I (or_introl (clears_end_zeroslots P)) Ces Hb Hfit Hrange) as (a & b & _ & X2 & X3 & _ & _).
     split; assumption.
   - (* FSnap *)
     destruct s as [x|]; [destruct (snap_valid x) eqn:Es|]; cbn [fst snd];
       try (split; [intros _; apply save_whole|discriminate]).
     split; [discriminate|]. intros _. unfold failed_log. rewrite !abs_log. cbn [a_ents a_meta].
-    destruct (add_entries_inv VZeroSlots P true HP (clears_zeroslots P) d i0 Ac e0 r I Ces Hb Hfit Hrange) as (a & b & _ & X2 & X3 & _).
+    destruct (add_entries_inv VZeroSlots P true HP (clears_zeroslots P) d i0 Ac e0 r I (or_introl (clears_end_zeroslots P)) Ces Hb Hfit Hrange) as (a & b & _ & X2 & X3 & _ & _).
     unfold store_meta. cbn [d_meta log_of d_files d_cur store_snap]. fold (log_of (add_entries VZeroSlots P (e0 :: r) d)).
     split; [exact X2|]. now rewrite X3.
 Qed.
@@ -356,54 +443,89 @@ Proof.
   rewrite (inv_first P d i0 Ac I E). exact (inv_consec P d i0 Ac I).
 Qed.
 
+Lemma needs_rotate_next : forall P d e, wf_params P = true -> fits P e ->
+  needs_rotate P d (end_off P d) e = true -> d_next d <> 0.
+Proof.
+  intros P d e HP Hf H E. destruct (wf_params_facts P HP) as (Hmax & _ & _).
+  unfold needs_rotate, end_off, fits in *. rewrite E in H. cbn [N.eqb] in H.
+  destruct (max_entries P <=? 0) eqn:E1; [lia|]. destruct (max_size P <? data_off P + 4 + p_len (e_data e)) eqn:E2; [lia|].
+  discriminate.
+Qed.
+
+(* a completed rotation keeps the invariant: the old current file joins the rotated ones, the new one is empty *)
+Lemma rotate_inv : forall P d i0 Ac, dinvz P i0 d Ac -> Ac <> [] -> dinvz P i0 (rotate P (end_off P d) d) [].
+Proof.
+  intros P d i0 Ac [I Hal] HA. pose proof I as (H1 & Hch & V & C & Hn & HKl).
+  pose proof (length_pos_ne Ac HA) as Hpos.
+  set (p := (length Ac - 1)%nat). assert (Hp : (p < length Ac)%nat) by (unfold p; lia).
+  assert (Hoff : forall x, In x Ac -> s_off (r_slot x) < end_off P d).
+  { intros x Hx. unfold end_off. rewrite Hn. destruct (N.of_nat (length Ac) =? 0) eqn:E0; [lia|].
+    replace (N.of_nat (length Ac) - 1) with (N.of_nat p) by (unfold p; lia).
+    unfold slot_at. rewrite (fv_row_at_live P (d_cur d) Ac [] p V Hp).
+    pose proof (incr_offs_le_last Ac x (fv_offs _ _ _ _ V) Hx) as L. fold p in L. lia. }
+  set (c' := mkfile (f_id (d_cur d)) (f_n (d_cur d)) (f_rows (d_cur d)) (end_off P d) (f_c0 (d_cur d)) (f_fresh (d_cur d))).
+  assert (Vc' : fview P c' Ac []) by (apply resize_view; assumption).
+  assert (Hall : Forall all_live (d_files d ++ [c'])).
+  { apply Forall_app. split; [exact Hal|]. constructor; [exact (view_all_live P c' Ac Vc')|constructor]. }
+  split; [|exact Hall].
+  unfold dinv, rotate. cbn [d_files d_cur d_next]. fold c'.
+  split; [exact H1|]. split.
+  { apply chain_app. split; [exact Hch|]. cbn [chain]. exists Ac, []. auto. }
+  split; [apply new_file_view|]. split; [exact Logic.I|]. split; [reflexivity|]. intros _. exact Hall.
+Qed.
+
 Lemma fail_state_inv : forall P, wf_params P = true -> forall d i0 Ac e0 r h s ft,
   dinvz P i0 d Ac -> valid_batch P e0 r (log_of d) ->
   let res := save_fail VZeroSlots P (e0 :: r) h s ft d in
-  fst res = true -> settled (snd res) -> exists i1 Ac1, dinvz P i1 (snd res) Ac1.
+  fst res = true -> exists i1 Ac1, dinvz P i1 (snd res) Ac1.
 Proof.
   intros P HP d i0 Ac e0 r h s ft Iz (Ces & Hb & Hfit & Hrange) res. pose proof Iz as [I Hal].
   subst res. unfold save_fail. cbv zeta.
-  destruct ft as [|j rot| |].
-  - destruct (clear_failed P (e_index e0) d) as [d1|] eqn:Ecf; cbn [fst snd]; [|discriminate].
-    intros _ _. destruct (clear_failed_state P HP d i0 Ac (e_index e0) d1 Iz Hb Hrange Ecf) as ((Ac1 & J) & _). eauto.
+  destruct ft as [c|j rot| |].
+  - destruct (clear_failed P (e_index e0) c d) as [d1|] eqn:Ecf; cbn [fst snd]; [|discriminate].
+    intros _. destruct (clear_failed_state P HP d i0 Ac (e_index e0) c d1 Iz Hb Hrange Ecf) as ((Ac1 & J) & _). eauto.
   - destruct (Nat.ltb j (length (e0 :: r))) eqn:Ej; cbn [fst snd]; [|discriminate]. intros _.
     set (d1 := after_conflict P (firstn j (e0 :: r)) (conflict_step VZeroSlots P (e_index e0) d)).
-    destruct (rot && needs_rotate P d1 (end_off P d1) (nth j (e0 :: r) e0)).
-    { intros [S|S]; [exfalso; apply S; reflexivity|].
-      unfold rotate in S. cbn [d_files] in S. apply app_eq_nil in S as [_ S]. discriminate. }
-    intro Hs. destruct j as [|j].
-    + destruct (conflict_step_state VZeroSlots P true HP (clears_zeroslots P) d i0 Ac (e_index e0) I Hb Hrange)
-        as (i0' & A' & D' & K1 & Kch & V' & KC & Kn & _ & KD & _ & _ & _ & Kal).
-      rewrite (KD eq_refl) in V'. clear KD.
-      set (dc := conflict_step VZeroSlots P (e_index e0) d) in *.
-      assert (HA : A' = [] -> d_files dc = []).
-      { intros ->. destruct Hs as [S|S].
-        - exfalso. apply S. unfold d1, after_conflict. cbn [firstn]. rewrite Kn. cbn [length N.of_nat N.eqb append_loop d_cur].
-          now rewrite (fv_entries P (d_cur dc) [] [] V').
-        - unfold d1, after_conflict in S. cbn [firstn] in S. rewrite Kn in S. cbn [length N.of_nat N.eqb append_loop d_files] in S.
-          exact S. }
-      exists i0', A'. unfold d1, after_conflict. cbn [firstn]. rewrite Kn.
-      destruct (N.of_nat (length A') =? 0) eqn:E0.
-      * cbn [append_loop]. split; [|unfold alivef; cbn [d_files]; now apply Kal].
-        unfold dinv. cbn [d_files d_cur d_next]. auto 10.
-      * set (p := (length A' - 1)%nat). assert (Hp : (p < length A')%nat) by (unfold p; lia).
-        replace (N.of_nat (length A') - 1) with (N.of_nat p) by (unfold p; lia).
-        destruct (cell_len_view P (d_cur dc) A' [] p V' Hp) as [_ Vc].
-        destruct (cell_len (d_cur dc) (N.of_nat p)) as [n c]. cbn [snd] in Vc. cbn [append_loop].
-        split; [|unfold alivef; cbn [d_files]; now apply Kal].
-        unfold dinv. cbn [d_files d_cur d_next]. auto 10.
-    + assert (Eadd : d1 = add_entries VZeroSlots P (e0 :: firstn j r) d) by reflexivity.
-      destruct (add_entries_inv VZeroSlots P true HP (clears_zeroslots P) d i0 Ac e0 (firstn j r) I) as (a & b & X1 & _ & _ & X4).
-      * change (e0 :: firstn j r) with (firstn (S j) (e0 :: r)). now apply consec_firstn_es.
-      * exact Hb.
-      * change (e0 :: firstn j r) with (firstn (S j) (e0 :: r)). now apply Forall_firstn_fits.
-      * exact Hrange.
-      * exists a, b. rewrite Eadd. split; [exact X1|now apply X4].
-  - destruct h as [x|]; [destruct (hs_is_empty x) eqn:Eh|]; cbn [fst snd]; try discriminate. intros _ _.
-    destruct (add_entries_inv VZeroSlots P true HP (clears_zeroslots P) d i0 Ac e0 r I Ces Hb Hfit Hrange) as (a & b & X1 & _ & _ & X4).
+    assert (J1 : exists i1 Ac1, dinvz P i1 d1 Ac1).
+    { destruct j as [|j].
+      + destruct (conflict_step_state VZeroSlots P true HP (clears_zeroslots P) (clears_end_zeroslots P) d i0 Ac (e_index e0) I Hb Hrange)
+          as (i0' & A' & D' & K1 & Kch & V' & KC & Kn & _ & KD & _ & _ & _ & Kal).
+        rewrite (KD eq_refl) in V'. clear KD.
+        set (dc := conflict_step VZeroSlots P (e_index e0) d) in *.
+        pose proof (Kal Hal) as Hal'.
+        exists i0', A'. unfold d1, after_conflict. cbn [firstn]. rewrite Kn.
+        destruct (N.of_nat (length A') =? 0) eqn:E0.
+        * cbn [append_loop]. split; [|exact Hal'].
+          unfold dinv. cbn [d_files d_cur d_next].
+          split; [exact K1|]. split; [exact Kch|]. split; [exact V'|]. split; [exact KC|]. split; [reflexivity|]. intros _. exact Hal'.
+        * set (p := (length A' - 1)%nat). assert (Hp : (p < length A')%nat) by (unfold p; lia).
+          replace (N.of_nat (length A') - 1) with (N.of_nat p) by (unfold p; lia).
+          destruct (cell_len_view P (d_cur dc) A' [] p V' Hp) as [_ Vc].
+          destruct (cell_len (d_cur dc) (N.of_nat p)) as [n c]. cbn [snd] in Vc. cbn [append_loop].
+          split; [|exact Hal'].
+          unfold dinv. cbn [d_files d_cur d_next].
+          split; [exact K1|]. split; [exact Kch|]. split; [exact Vc|]. split; [exact KC|]. split; [reflexivity|]. intros _. exact Hal'.
+      + assert (Eadd : d1 = add_entries VZeroSlots P (e0 :: firstn j r) d) by reflexivity.
+        destruct (add_entries_inv VZeroSlots P true HP (clears_zeroslots P) d i0 Ac e0 (firstn j r) I (or_introl (clears_end_zeroslots P))) as (a & b & X1 & _ & _ & X4 & _).
+        * change (e0 :: firstn j r) with (firstn (S j) (e0 :: r)). now apply consec_firstn_es.
+        * exact Hb.
+        * change (e0 :: firstn j r) with (firstn (S j) (e0 :: r)). now apply Forall_firstn_fits.
+        * exact Hrange.
+        * exists a, b. rewrite Eadd. split; [exact X1|now apply X4]. }
+    destruct J1 as (i1 & Ac1 & J1).
+    destruct (rot && needs_rotate P d1 (end_off P d1) (nth j (e0 :: r) e0)) eqn:ER; [|eauto].
+    apply andb_true_iff in ER as [_ ER].
+    assert (Hfj : fits P (nth j (e0 :: r) e0)).
+    { rewrite Forall_forall in Hfit. apply Hfit. apply nth_In. now apply Nat.ltb_lt. }
+    pose proof (needs_rotate_next P d1 _ HP Hfj ER) as Hnx.
+    assert (HA1 : Ac1 <> []).
+    { destruct J1 as [(_ & _ & _ & _ & Hn1 & _) _]. intro E. rewrite E in Hn1. cbn in Hn1. congruence. }
+    exists i1, []. exact (rotate_inv P d1 i1 Ac1 J1 HA1).
+  - destruct h as [x|]; [destruct (hs_is_empty x) eqn:Eh|]; cbn [fst snd]; try discriminate. intros _.
+    destruct (add_entries_inv VZeroSlots P true HP (clears_zeroslots P) d i0 Ac e0 r I (or_introl (clears_end_zeroslots P)) Ces Hb Hfit Hrange) as (a & b & X1 & _ & _ & X4 & _).
     exists a, b. split; [exact X1|now apply X4].
-  - destruct s as [x|]; [destruct (snap_valid x) eqn:Es|]; cbn [fst snd]; try discriminate. intros _ _.
-    destruct (add_entries_inv VZeroSlots P true HP (clears_zeroslots P) d i0 Ac e0 r I Ces Hb Hfit Hrange) as (a & b & X1 & _ & _ & X4).
+  - destruct s as [x|]; [destruct (snap_valid x) eqn:Es|]; cbn [fst snd]; try discriminate. intros _.
+    destruct (add_entries_inv VZeroSlots P true HP (clears_zeroslots P) d i0 Ac e0 r I (or_introl (clears_end_zeroslots P)) Ces Hb Hfit Hrange) as (a & b & X1 & _ & _ & X4 & _).
     exists a, b. split; [apply dinv_meta; exact X1|]. unfold alivef, store_meta. cbn [d_files]. now apply X4.
 Qed.
 
@@ -413,15 +535,15 @@ Theorem failed_save_retry : forall P, wf_params P = true -> forall d i0 Ac e0 r 
   dinvz P i0 d Ac -> valid_batch P e0 r (log_of d) ->
   let es := e0 :: r in
   let res := save_fail VZeroSlots P es h s ft d in
-  fst res = true -> settled (snd res) ->
+  fst res = true ->
   (exists i1 Ac1, dinvz P i1 (snd res) Ac1)
   /\ valid_op P (Save es h s) (abs (snd res))
   /\ step_spec (Save es h s) 0 (abs (snd res)) = step_spec (Save es h s) 0 (abs d)
   /\ let '(d2, x2) := step_disk VZeroSlots P (Save es h s) (snd res) in
      (abs d2, x2) = step_spec (Save es h s) 0 (abs d).
 Proof.
-  intros P HP d i0 Ac e0 r h s ft Iz Hvb es res Hrep Hset. pose proof Iz as [I Hal]. pose proof Hvb as (Ces & Hb & Hfit & Hrange).
-  destruct (fail_state_inv P HP d i0 Ac e0 r h s ft Iz Hvb Hrep Hset) as (i1 & Ac1 & J).
+  intros P HP d i0 Ac e0 r h s ft Iz Hvb es res Hrep. pose proof Iz as [I Hal]. pose proof Hvb as (Ces & Hb & Hfit & Hrange).
+  destruct (fail_state_inv P HP d i0 Ac e0 r h s ft Iz Hvb Hrep) as (i1 & Ac1 & J).
   destruct (failed_save_log P HP d i0 Ac e0 r h s ft Iz Hvb) as [_ FL]. specialize (FL Hrep).
   fold es res in FL, J. set (d1 := snd res) in *.
   pose proof (log_consec_first P d i0 Ac I) as Ccl.
@@ -429,7 +551,7 @@ Proof.
   assert (K : in_range (e_index e0) (log_of d1) /\ below_idx (e_index e0) (log_of d1) = below_idx (e_index e0) (log_of d)
               /\ store_snap s (store_hs h (d_meta d1)) = store_snap s (store_hs h (d_meta d))).
   { unfold failed_log in FL. rewrite !abs_log in FL. cbn [a_ents a_meta] in FL.
-    destruct ft as [|j rot| |].
+    destruct ft as [c|j rot| |].
     - destruct FL as ((n & L & Hn) & M). rewrite L, M. destruct (retry_prefix _ _ n Ccl Hrange' Hn) as [R1 R2]. auto.
     - destruct FL as (L & M). rewrite L, M. destruct (retry_partial (log_of d) e0 r j Ccl Hrange' Ces) as [R1 R2]. auto.
     - destruct FL as (L & M). rewrite L, M. rewrite s_append_below.
@@ -459,15 +581,14 @@ Qed.
 Theorem crash_in_loop_then_reopen : forall P, wf_params P = true -> forall d i0 Ac e0 r h s j rot,
   dinvz P i0 d Ac -> valid_batch P e0 r (log_of d) -> (j < length (e0 :: r))%nat ->
   let d1 := snd (save_fail VZeroSlots P (e0 :: r) h s (FEntry j rot) d) in
-  settled d1 ->
   let d2 := reopen P d1 in
   abs d2 = mkalog (drop_below (disk_first d2) (below_idx (e_index e0) (log_of d) ++ firstn j (e0 :: r))) (d_meta d)
   /\ exists i2 Ac2, dinvz P i2 d2 Ac2.
 Proof.
-  intros P HP d i0 Ac e0 r h s j rot Iz Hvb Hj d1 Hset d2.
+  intros P HP d i0 Ac e0 r h s j rot Iz Hvb Hj d1 d2.
   assert (Hrep : fst (save_fail VZeroSlots P (e0 :: r) h s (FEntry j rot) d) = true).
   { unfold save_fail. apply Nat.ltb_lt in Hj. now rewrite Hj. }
-  destruct (fail_state_inv P HP d i0 Ac e0 r h s (FEntry j rot) Iz Hvb Hrep Hset) as (i1 & Ac1 & J).
+  destruct (fail_state_inv P HP d i0 Ac e0 r h s (FEntry j rot) Iz Hvb Hrep) as (i1 & Ac1 & J).
   destruct (failed_save_log P HP d i0 Ac e0 r h s (FEntry j rot) Iz Hvb) as [_ FL]. specialize (FL Hrep).
   fold d1 in FL, J. unfold failed_log in FL. rewrite !abs_log in FL. cbn [a_ents a_meta] in FL. destruct FL as [L M].
   pose proof (step_all_z P HP Reopen d1 i1 Ac1 J Logic.I) as S. unfold step_ok_z in S. cbn [step_disk step_spec] in S.
